@@ -27,18 +27,20 @@ func (World) Stub(prop string) []string {
 
 func (World) Assumptions(prop string) []string {
 	return []string{
-		"a transaction hash belongs to exactly one miniblock; miniblocks are identified by the hash the repository itself computes (core.CalculateHash with the same marshalizer and hasher)",
+		"miniblocks are identified by the hash the repository itself computes (core.CalculateHash with the same marshalizer and hasher); a transaction can be re-packed by a competing block into a miniblock of other composition (same shards and type), never twice into one block; the lookup of a transaction must name the block and miniblock of the most recent record that contained the transaction",
+		"NOT asserted (probe repacked_tx_recommitted_by_repeated_record, finding candidate): block A{M1:t1,t2}, competing block B{M2:t1,t3}, then A recorded again (fork choice flips back): the repository skips the repeated record of A as a whole, so t1 keeps naming B; the transaction is relaxed until a record that is not a repetition contains it",
 		"a header hash determines its header (epoch, nonce, round): re-recording a header hash always presents the same header",
 		"no PeerBlock miniblocks and no meta block with nonce 0 are generated (the repository documents that it ignores both)",
 		"notarization fields are asserted only when (a) the miniblock has a record on disk and the notarizing meta block was delivered, (b) an OnNotarizedBlocks call happened at or after the later of the two (bounded progress: pending notifications are consumed only inside OnNotarizedBlocks), (c) no Restart fell between the delivery and that call (pending notifications are memory-only), (d) no later record of the miniblock in a DIFFERENT block (or the same block after a Restart emptied the dedup cache) rewrote the metadata; case (d) is only counted (probe notarization_wiped_by_rerecord) because the statement does not say whether a notification consumed by a dropped block's record must carry over",
 		"a notarization field that is set must equal a (meta nonce, meta hash) pair that was delivered for that miniblock and side",
-		"put_error relaxation, per miniblock of the failed RecordBlock only: its lookups may fail or name any block that was recorded with that miniblock, until a lookup shows the latest record again; fault-free arm decides separately",
+		"put_error relaxation, per miniblock of the failed RecordBlock only: its lookups may fail or name any block that was recorded with that transaction, until a lookup of a transaction that must name it shows the latest record again; a later record of the same block may or may not be skipped by the dedup cache (both accepted); fault-free arm decides separately",
+		"put_error during OnNotarizedBlocks: every write of patched metadata fails for the duration of ONE call (not a single n-th write: the order in which one call applies several pending notifications follows Go map iteration and would not replay); the repository keeps such notifications pending, so after the next fault-free OnNotarizedBlocks call they must be reported (unless a Restart fell in between)",
 		"dedup cache (1000 entries) never evicts inside a run (at most 4 miniblocks x few epochs)",
 	}
 }
 
 func (World) Rule(prop string) string {
-	return "2-4 miniblocks (1-3 tx hashes each; intra-shard, outgoing, incoming, to-meta, from-meta), 2-6 shard blocks over 1-3 heights and 1-3 epochs with competing blocks sharing miniblocks (same epoch and across epochs), 1-4 meta blocks (some competing) whose shard data name the miniblocks at source/destination plus unknown and irrelevant miniblocks; 6-45 steps record(block) | notify(meta) | notify() | restart in random order with re-records (fork flips back) and duplicate notifications; arm faults: 1-2 record steps with a put_error on one of the four disks. After every step every tx of every recorded miniblock is looked up. non-trivial = a miniblock was recorded in two different blocks and at least one lookup was asserted; distinct = hash of full plan; states = (tx, header hash, notarization nonces) tuples"
+	return "2-4 miniblocks (1-3 tx hashes each; intra-shard, outgoing, incoming, to-meta, from-meta), in half of the runs 1-2 further miniblocks that re-pack transactions of another one (one more tx / one tx swapped / only the first tx); 2-6 shard blocks over 1-3 heights and 1-3 epochs with competing blocks sharing miniblocks or holding the re-packed version (same epoch and across epochs), 1-4 meta blocks (some competing) whose shard data name the miniblocks at source/destination plus unknown and irrelevant miniblocks; 6-45 steps record(block) | notify(meta) | notify() | restart in random order with re-records (fork flips back) and duplicate notifications; arm faults: 1-2 steps with a put_error: a record step (n-th write on one of the four disks) or a notify step (all metadata writes of that call), followed by a fault-free notify. After every step every tx of every recorded miniblock is looked up. non-trivial = a miniblock was recorded in two different blocks and at least one lookup was asserted; distinct = hash of full plan; states = (tx, header hash, notarization nonces) tuples"
 }
 
 func (World) Budget(prop, tier string) int {
